@@ -76,6 +76,10 @@ def run(ctx, rep):
     rep.rule("R05-RESULT", "EvalResult::new receives (machine.ex_budget as remaining, the budget given to Machine::new* as initial); cost = initial - remaining", floor=7)
     rep.rule("R05-WIRE", "every get(ParamName) in the CostModel literal names the builtin, dimension and coefficient of the field it initialises", floor=390)
     rep.rule("R05-SIZE", "each to_ex_budget arm reads only its own cost field; mem and cpu receive token-identical size arguments", floor=91)
+    rep.rule("R05-VORDER", "ParamName::V1/V2/V3: no duplicates, each builtin's parameters contiguous, ascending within the builtin, and ordered identically in the three lists", floor=300)
+    rep.rule("R05-MEASURE", "constants and Data leaves of the same kind are sized by the same measure function", floor=6)
+    rep.guarded("R05-VORDER", lambda: r_vorder(sh, rep))
+    rep.guarded("R05-MEASURE", lambda: r_measure(sh, rep))
     rep.guarded("R05-STEP", lambda: r_step(sh, rep))
     rep.guarded("R05-STEPKIND", lambda: r_stepkind(sh, rep))
     rep.guarded("R05-STARTUP", lambda: r_startup(sh, rep))
@@ -504,3 +508,111 @@ def r_wire(sh, rep):
     # every ParamName is consumed somewhere in the literal (an unused parameter is a silently ignored ledger value)
     unused = sorted(pn - used)
     rep.check(not unused, "R05-WIRE", "all-params-consumed", CM, "ParamName variant(s) never read by the cost-model literal: %s" % unused[:8], sample={"params": len(pn), "used": len(used)})
+
+
+# ---------------------------------------------------------------------------------------------------------
+# R05-VORDER: positional parameter lists (ParamName::V1/V2/V3) — sibling agreement and within-builtin order
+# ---------------------------------------------------------------------------------------------------------
+# The ledger hands cost models over as a positional vector; ParamName::V{1,2,3} say which name sits at which
+# position. The three lists are independent copies of one convention: the parameters of one builtin are the
+# flattened keys of its JSON object, in ascending key order. Reviewed exception (kept as found on the tree;
+# the ledger's own list cannot be consulted offline):
+VORDER_EXCEPTIONS = {("UnionValue", "UnionValue_cpu_arguments_c10", "UnionValue_cpu_arguments_c01"): "two-variable polynomial listed c00,c10,c01,c11 in all three lists"}
+
+
+def _param_group(name):
+    m = re.match(r"^(.*?)_(cpu|memory)_arguments|^(Cek\w+?Cost)_exBudget", name)
+    if not m:
+        return name
+    return m.group(1) or m.group(3)
+
+
+def r_vorder(sh, rep):
+    fj = sh.file(CM)
+    lists = {}
+    for _, it in items(fj):
+        if it["k"] == "Impl" and _ty_name(it["self_ty"]) == "ParamName" and it["trait"] is None:
+            for c in it["items"]:
+                if c["k"] == "Const" and re.match(r"^V\d$", c["name"]):
+                    lists[c["name"]] = [last(n["p"]) for n in walk(c["e"]) if n["k"] == "Path"]
+    if len(lists) < 3:
+        raise AnchorMissing("ParamName::V1/V2/V3 constant lists")
+    rep.touched(CM, "ParamName::V1/V2/V3")
+    per = {}
+    for vn, names in sorted(lists.items()):
+        dup = sorted({n for n in names if names.count(n) > 1})
+        rep.check(not dup, "R05-VORDER", "%s#no-duplicate" % vn, CM, "ParamName::%s lists %s twice: two positions of the ledger vector feed one parameter and another is never set" % (vn, dup), sample={"length": len(names)})
+        groups = {}
+        order = []
+        for n in names:
+            g = _param_group(n)
+            if g not in groups:
+                order.append(g)
+            groups.setdefault(g, []).append(n)
+        # contiguity: a builtin's parameters sit next to each other
+        runs = []
+        for n in names:
+            g = _param_group(n)
+            if not runs or runs[-1] != g:
+                runs.append(g)
+        split = sorted({g for g in runs if runs.count(g) > 1})
+        rep.check(not split, "R05-VORDER", "%s#contiguous" % vn, CM, "in ParamName::%s the parameters of %s are not contiguous" % (vn, split), nontrivial=True)
+        for g, ns in groups.items():
+            per.setdefault(g, {})[vn] = ns
+            for a, b in zip(ns, ns[1:]):
+                if a > b and (g, a, b) not in VORDER_EXCEPTIONS:
+                    rep.bad("R05-VORDER", "%s#%s#ascending#%s" % (vn, g, b), CM, "ParamName::%s lists %s before %s: within one builtin the ledger's positional vector follows ascending key order (349 of 350 adjacent pairs do; the one reviewed exception is UnionValue c10/c01) — two cost coefficients are transposed" % (vn, a, b), sample={"group": ns})
+            rep.ok("R05-VORDER", "%s#%s#ascending" % (vn, g), CM, nontrivial=len(ns) > 1, sample={"params": ns} if len(ns) > 3 else None)
+    for g, by in sorted(per.items()):
+        seqs = {vn: tuple(ns) for vn, ns in by.items()}
+        if len(seqs) > 1:
+            ref_v, ref = sorted(seqs.items())[0]
+            for vn, s in sorted(seqs.items())[1:]:
+                # the costing function of a builtin may differ between versions (other parameters); what must agree is the
+                # relative order of the parameters both lists have
+                common = set(s) & set(ref)
+                s, ref_c = tuple(x for x in s if x in common), tuple(x for x in ref if x in common)
+                rep.check(s == ref_c, "R05-VORDER", "%s#same-order-as-%s#%s" % (vn, ref_v, g), CM, "the shared parameters of %s are ordered %s in ParamName::%s but %s in ParamName::%s: the same builtin is flattened differently by two versions of the list" % (g, list(s), vn, list(ref_c), ref_v), sample={"group": g})
+
+
+def _ty_name(t):
+    return re.sub(r"<.*$", "", t).split("::")[-1]
+
+
+# ---------------------------------------------------------------------------------------------------------
+# R05-MEASURE: one size measure per kind of value, shared by constants and by Data leaves
+# ---------------------------------------------------------------------------------------------------------
+V = "crates/uplc/src/machine/value.rs"
+MEASURE_CONST = {"Integer": "integer_to_ex_mem", "ByteString": "byte_string_to_ex_mem", "String": "utf8_text_to_ex_mem", "Data": "data_to_ex_mem_inner"}
+MEASURE_DATA = {"BigInt": "integer_to_ex_mem", "BoundedBytes": "byte_string_to_ex_mem"}
+
+
+def r_measure(sh, rep):
+    fj = sh.file(V)
+    cm = find_method(fj, "Value", "constant_to_ex_mem")
+    rep.touched(V, "Value::constant_to_ex_mem")
+    m = find_enum_match(cm, "Constant", set(MEASURE_CONST) | {"Unit", "Bool", "ProtoList", "ProtoPair"})
+    if m is None:
+        raise AnchorMissing("match over Constant in constant_to_ex_mem")
+    for v, arm, alt in arm_table(m):
+        if v in MEASURE_CONST:
+            called = {call_name(c) and last(call_name(c)) for c in calls_in(arm["body"])}
+            rep.check(MEASURE_CONST[v] in called, "R05-MEASURE", "constant_to_ex_mem#%s" % v, sh.loc(V, arm), "the size of a %s constant must be measured by %s (found calls: %s)" % (v, MEASURE_CONST[v], sorted(x for x in called if x)), sample={"measure": MEASURE_CONST[v]})
+    di = find_method(fj, "Value", "data_to_ex_mem_inner")
+    rep.touched(V, "Value::data_to_ex_mem_inner")
+    m = find_enum_match(di, "PlutusData", {"Constr", "Map", "BigInt", "BoundedBytes", "Array"})
+    if m is None:
+        raise AnchorMissing("match over PlutusData in data_to_ex_mem_inner")
+    seen = set()
+    for v, arm, alt in arm_table(m):
+        if v is None:
+            rep.bad("R05-MEASURE", "data_to_ex_mem_inner#catch-all", sh.loc(V, arm), "catch-all arm: some Data node is sized without its own rule")
+        if v in MEASURE_DATA:
+            seen.add(v)
+            called = {call_name(c) and last(call_name(c)) for c in calls_in(arm["body"])}
+            # the integer must be measured as the integer it denotes (conversion through from_pallas_bigint), by the same helper as Integer constants
+            ok = MEASURE_DATA[v] in called and (v != "BigInt" or "from_pallas_bigint" in called)
+            rep.check(ok, "R05-MEASURE", "data_to_ex_mem_inner#%s" % v, sh.loc(V, arm), "a Data %s leaf must be measured by %s%s — the same measure as the corresponding constant — but the arm calls %s: Data and constants of the same value would be billed differently" % (v, MEASURE_DATA[v], " applied to from_pallas_bigint(..)" if v == "BigInt" else "", sorted(x for x in called if x)), sample={"measure": MEASURE_DATA[v]})
+    for v in MEASURE_DATA:
+        if v not in seen:
+            rep.bad("R05-MEASURE", "data_to_ex_mem_inner#%s#missing" % v, sh.loc(V, m), "no arm for PlutusData::%s" % v)
